@@ -52,6 +52,10 @@ Oracle (written from the statement):
   fired_inactive   a handler/delay/switch handler registered by the custom mode code runs while the mode is not active
                    (relaxation R5: not judged in the very instant in which mode_<m>_stopped is posted - the stop completes
                    when that event has been dispatched).
+  stop_lost        a direct stop() that returned True (accepted: carried out at once or put off until a held start / the
+                   pending mode_start() has completed) makes the run in progress reach `stopped` by the next fault-free
+                   settle, without any further request.  (Stops by event have no visible verdict; they are judged only when
+                   issued at a quiet instant to a settled active mode: request_ignored.)
   wait_queue       use_wait_queue modes started by a queue event: that queue event is not released before/while its run
                    is running, and is released (exactly once) after the run posted mode_<m>_stopped - judged at the next
                    fault-free settle, not only at the end; at quiescence no start queue of a stopped mode is still held.
@@ -84,7 +88,7 @@ PROBES = ["start_while_starting", "start_while_stopping", "stop_while_starting",
           "stop_by_own_device", "refused_game_mode", "priority_override", "switch_while_active", "var_flip_while_active",
           "game_started", "game_ended", "ball_started", "game_drain", "game_add_player_request", "game_end_request",
           "ball_end_with_game_mode_active", "delayed_control_event_in_active", "delayed_control_event_in_stopping",
-          "stop_with_delayed_control_event_pending", "wait_queue_run", "wait_queue_restart_same_instant", "registry_compared_in_game", "registry_after_game_mode_stop",
+          "stop_with_delayed_control_event_pending", "stop_accepted_while_starting", "stop_accepted_and_put_off", "wait_queue_run", "wait_queue_restart_same_instant", "registry_compared_in_game", "registry_after_game_mode_stop",
           "registry_compared_after_game"]
 REAL = ["mpf.core.mode.Mode", "mpf.core.mode_controller.ModeController", "mpf.core.config_player.ConfigPlayer and the "
         "event/variable/light/show/coil/queue_relay players", "mpf.core.mode_device / logic blocks / timers / combo_switch",
@@ -368,6 +372,7 @@ def execute(ctx, plan):
     # wait-queue modes: which queue event (token) started the current run; tokens in posting order = dispatch order
     wq_run = {n: {"starter": None, "stopped": True} for n in WAIT_QUEUE_MODES}
     wq_owed = []            # starters of runs that have stopped: must be released (exactly once) by the next settle
+    stops_owed = []         # accepted direct stops: the run they were issued in must have stopped by the next settle
     after_stop_check = []
 
     def now():
@@ -624,6 +629,15 @@ def execute(ctx, plan):
             else:
                 ret = md.stop(**kw)
                 acc = bool(ret)
+                if ret:
+                    # "every accepted stop eventually completes": stop() said the mode is running and took the request
+                    # (at once, or put off until a held start has completed): the run in progress has to reach `stopped`
+                    if state in ("will_start", "starting"):
+                        ctx.probe("stop_accepted_while_starting")
+                    elif state == "started" and s["count"]["will_stop"] == before["will_stop"]:
+                        ctx.probe("stop_accepted_and_put_off")
+                    stops_owed.append({"mode": n, "cycles": s["cycles"], "t": now(), "state": state,
+                                       "cb": bool(r.get("cb")), "origin": origin})
                 if s["count"]["will_stop"] > before["will_stop"] and not ret:
                     ctx.violation("request_ignored", "stop() returned False but stopped the mode",
                                   "stop() of %s returned %r but posted will_stop" % (n, ret))
@@ -899,6 +913,15 @@ def execute(ctx, plan):
                 break
         judge_coded()
         if not holds and quiet_bus():
+            while stops_owed:
+                so = stops_owed.pop(0)
+                if st[so["mode"]]["cycles"] <= so["cycles"]:
+                    ctx.violation("stop_lost", "accepted stop of %s (mode was %s) not carried out" % (so["mode"], so["state"]),
+                                  "%s: stop() of mode %s at t=%.6f returned True (last lifecycle event then: %s, callback "
+                                  "given: %s, issued from: %s) but the run has not stopped: no mode_%s_stopped since, last event "
+                                  "now %s, flags(active,starting,stopping)=%r, nothing held, loop ran fault-free"
+                                  % (why, so["mode"], so["t"], so["state"], so["cb"], so["origin"], so["mode"],
+                                     st[so["mode"]]["last"], flags(so["mode"])))
             while wq_owed:
                 tok = wq_owed.pop(0)
                 if tok["calls"] != 1:
